@@ -5,7 +5,7 @@ Require Extraction.
 Require Import ExtrOcamlBasic.
 From Coq Require Import ZArith QArith List String Bool.
 From Pandora Require Import Lib.Value Model.Json Model.JsonWire Model.Checker Model.Pipeline
-  Model.Save Model.SavedCfg Gen.Schemas Gen.SavePlan.
+  Model.Save Model.SavedCfg Proofs.SavedCfgP Gen.Schemas Gen.SavePlan.
 Import ListNotations.
 Open Scope Z_scope.
 
@@ -83,6 +83,9 @@ Definition dispatch (fid : Z) (v : value) : value :=
   | 5 => of_str (indicator_of (as_str v))
   (* 6: the path of config.json in the output tree *)
   | 6 => match out_path otd "config.json" with Some p => VL [of_str p] | None => VL [] end
+  (* 7: (user left_img bands_left bands_right) -> the guard of the replay theorems *)
+  | 7 => of_b (replay_guard gen_defs open_orc all_ok2 all_ok1 (bands_fn v) classes interpolation_methods
+                            (dec_dict (vnth 0 v)))
   | _ => VL [VZ (-1)]
   end.
 
